@@ -128,6 +128,15 @@ def _lazy_ok(fn):
     return True
 
 
+class ExcValue(tuple):
+    """an exception object built by the evaluated code: ('exc', class name), with the constructor arguments on the side"""
+
+    def __new__(cls, name, args=()):
+        o = tuple.__new__(cls, ('exc', name))
+        o.args_ = tuple(args)
+        return o
+
+
 class Yielded(Exception):
     """evaluation reached a `yield` (used to evaluate the set-up half of a context manager)"""
 
@@ -319,6 +328,8 @@ class FDE:
                         v = self._ev(s.exc, env, fi)
                         if isinstance(v, tuple) and len(v) == 2 and v[0] == 'exc':
                             name = v[1]
+                            if isinstance(v, ExcValue):
+                                raise Raised(name, list(v.args_))
                         else:
                             raise Unsupported('raise of a computed value: %s' % unparse(s.exc))
                 raise Raised(name)
@@ -530,6 +541,11 @@ class FDE:
         elif isinstance(t, ast.Subscript):
             d = self._ev(t.value, env, fi)
             k = self._ev(t.slice, env, fi)
+            if isinstance(d, ObjDict) and isinstance(k, str):
+                d.obj.f[k] = v          # obj.__dict__[name] = value
+                d.obj.missing.discard(k)
+                self.effects.append(('setattr', d.obj, k, v))
+                return
             if not isinstance(d, dict):
                 raise Unsupported('subscript store on %r' % (d,))
             d[k] = v
@@ -880,6 +896,9 @@ class FDE:
         finally:
             self._gen_once = False
 
+    def _is_exc_class(self, n):
+        return any(b.endswith('Error') or b in ('Exception',) for b in self.repo.mro(n)[1:] + [n]) and not self.repo.is_subclass(n, 'ConfigNode')
+
     def _lazy_genexp(self, g, env, fi):
         """a generator expression as a Python generator: elements are evaluated when the consumer asks for them"""
         gen = g.generators[0]
@@ -1043,9 +1062,9 @@ class FDE:
                 raise Unsupported('builtin ' + n)
             import builtins as _b
             if n not in env and isinstance(getattr(_b, n, None), type) and issubclass(getattr(_b, n), BaseException):
-                return ('exc', n)
-            if n in self.repo.classes and n not in env and any(b.endswith('Error') or b in ('Exception',) for b in self.repo.mro(n)[1:] + [n]) and not self.repo.is_subclass(n, 'ConfigNode'):
-                return ('exc', n)
+                return ExcValue(n, args)
+            if n in self.repo.classes and n not in env and self._is_exc_class(n):
+                return ExcValue(n, args)
             if n == 'id' and len(args) == 1 and n not in env:
                 return id(args[0])
             if n in _PURE_BUILTINS and n not in env and all(_concrete(a) for a in args) and all(_concrete(v) for v in kwargs.values()):
@@ -1085,6 +1104,9 @@ class FDE:
         if isinstance(f, ast.Attribute) and unparse(f) in _PURE_EXTERNALS and all(isinstance(a, (str, int)) for a in args) and not kwargs:
             return _PURE_EXTERNALS[unparse(f)](*args)
 
+        if isinstance(f, ast.Attribute) and isinstance(f.value, ast.Name) and f.value.id not in env and fi is not None and f.value.id in fi.module.imports \
+                and f.attr in self.repo.classes and self._is_exc_class(f.attr) and self.repo.classes[f.attr].module.short == fi.module.imports[f.value.id].split(':')[-1].split('.')[-1]:
+            return ExcValue(f.attr, args)       # errors.SomeError(...) through the imported module
         if isinstance(f, ast.Attribute):
             target = self._ev(f, env, fi)
             if isinstance(target, tuple) and len(target) == 2 and target[0] == 'class':
